@@ -7,7 +7,10 @@ Round 6: (a) render CONTENT - a case's inner render may be {"style": "text", "ce
 lines of a user-defined text renderable, given verbatim (glyphs, escape sequences in the middle of a line,
 characters that occupy no column); padded directly, through Renderable.render(padding=) and as a RenderIterator
 frame.  (b) kind "anim": Renderable.draw() of a multi-frame text renderable with a padding, standard output
-connected to a pty; returns everything that arrived on the master side and the frames in the order drawn."""
+connected to a pty; returns everything that arrived on the master side and the frames in the order drawn.
+
+Round 8: kind "oanim": BaseImage.draw(animate=True) of a multi-frame GIF with the block / kitty / iterm2 style on a pty,
+the style's class carrying a given terminal identity (ITerm2Image._TERM, KittyImage._KITTY_VERSION) for that one draw."""
 import os
 
 import implenv
